@@ -4,11 +4,16 @@
 here="$(cd "$(dirname "$0")/.." && pwd)"
 cd "$here" || exit 3
 n=0; caught=0
+res="$here/mutants/RESULTS.md"
+{ echo "# Mutant catalogue - last run of tools/run_mutants.sh"; echo; echo "Repository HEAD: $(git -C /repo rev-parse --short HEAD); quick tier; $(date -u +%Y-%m-%dT%H:%MZ)"; echo; echo "| mutant | check | result |"; echo "|---|---|---|"; } > "$res.tmp"
 for p in mutants/${1:-c}*.patch; do
     prop="$(basename "$p" | cut -c1-3 | tr c C)"
     n=$((n+1))
     out="$(SHOW=0 tools/mutation_run.sh "$p" "$prop" 2>&1 | tail -1)"
     echo "$out"
+    echo "| $(basename "$p" .patch) | $prop | $(echo "$out" | cut -d' ' -f1) |" >> "$res.tmp"
     case "$out" in CAUGHT*) caught=$((caught+1));; esac
 done
 echo "mutants: $caught caught of $n"
+{ echo; echo "$caught caught of $n"; } >> "$res.tmp"
+[ -z "$1" ] && mv "$res.tmp" "$res" || rm -f "$res.tmp"
